@@ -63,6 +63,10 @@ def gen_programs(ctx, profile, n_prog, n_goals):
             a = g.goal(p)
             if a not in goals:
                 goals.append(a)
+        if profile == "builtin":
+            for a in g.bounded_goals(p, 4):
+                if a not in goals:
+                    goals.append(a)
         for a in goals:
             c = Case(i, p, a, "goal")
             c.forall_lt = ctx.rng.random() < 0.3
